@@ -21,6 +21,7 @@ func init() {
 			ruleF6(c)
 			ruleF7(c)
 			ruleF8(c)
+			ruleS2S3(c) // a plugin failing during registration does not leave the sync gate locked
 		},
 		explanation: "The fault space and the time bound are not statically reachable.  Decided is the handling structure every fault ends up in: every plugin RPC is made with a context derived by context.WithTimeout from the configured request timeout and its cancel is deferred; the fatal-error classification covers connection closed, server closed, protocol error and deadline exceeded; all relays agree — on an RPC error that is fatal the plugin is closed and the relay returns no reply and no error (the request continues), otherwise it returns exactly that error and no reply; every request method prunes closed plugins on every exit while still holding the adaptation lock, keeping exactly the plugins that are not closed; a relay error or merge error is tested before any use of the reply and returns (nil, err) at once; closing a plugin is idempotent and locked; the global lock-order graph over all locks of the adaptation, stub, net and multiplex packages has no cycle and no re-entrant acquisition.",
 		notDecided: []string{
@@ -313,7 +314,27 @@ func fatalTail(m *Module, f *ssa.Function, fb *ssa.BasicBlock, evIs func(ssa.Val
 	if !closed {
 		bad = "the fatal branch does not close the plugin: it keeps receiving requests"
 	}
+	fatalOwnReturn := false
 	for _, r := range returnsOf(f) {
+		if fatalB.Dominates(r.Block()) {
+			fatalOwnReturn = true
+		}
+	}
+	for _, r := range returnsOf(f) {
+		if !fatalOwnReturn && canReach(fatalB, r.Block()) {
+			// the fatal branch falls through to a shared return: what that return yields on the way through the branch
+			for i := 0; i < nres; i++ {
+				for _, v := range valuesVia(r, i, fatalB) {
+					if !isNilConst(v) && !isZeroConst(v) {
+						if i == nres-1 {
+							bad = "the fatal branch returns an error: a disconnected or timed-out plugin fails the whole request"
+						} else {
+							bad = "the fatal branch returns a reply"
+						}
+					}
+				}
+			}
+		}
 		if fatalB.Dominates(r.Block()) {
 			for i := 0; i < nres; i++ {
 				for _, v := range returnValues(r, i) {
@@ -347,6 +368,38 @@ func fatalTail(m *Module, f *ssa.Function, fb *ssa.BasicBlock, evIs func(ssa.Val
 		}
 	}
 	return bad
+}
+
+// valuesVia: what return r yields as result i on the paths that pass through the region dominated by
+// via: for a phi the edges coming out of the region, for a spilled (named) result the stores made
+// inside the region — and, when the region does not set it, whatever can reach the return at all.
+func valuesVia(r *ssa.Return, i int, via *ssa.BasicBlock) []ssa.Value {
+	v := r.Results[i]
+	switch x := v.(type) {
+	case *ssa.Phi:
+		var out []ssa.Value
+		for k, e := range x.Edges {
+			if via.Dominates(x.Block().Preds[k]) {
+				out = append(out, e)
+			}
+		}
+		if len(out) > 0 {
+			return out
+		}
+	case *ssa.UnOp:
+		if al, ok := x.X.(*ssa.Alloc); ok && x.Op == token.MUL {
+			var out []ssa.Value
+			for _, st := range storesTo(al) {
+				if via.Dominates(st.Block()) {
+					out = append(out, st.(*ssa.Store).Val)
+				}
+			}
+			if len(out) > 0 {
+				return out
+			}
+		}
+	}
+	return returnValues(r, i)
 }
 
 func storesTo(al *ssa.Alloc) []ssa.Instruction {
